@@ -97,6 +97,11 @@ func CachedBlockstore(
 
 	if opts.HasTwoQueueCacheSize > 0 {
 		cbs, err = newTwoQueueCachedBS(ctx, cbs, opts.HasTwoQueueCacheSize)
+		if err != nil {
+			// Do not let the Bloom layer below overwrite this error and
+			// wrap a nil *tqcache.
+			return nil, err
+		}
 	}
 	if opts.HasBloomFilterSize != 0 {
 		// *8 because of bytes to bits conversion
